@@ -617,3 +617,255 @@ def llvm_intrinsic(ex, name, ins, d, gargs):
 
 def prefix_builtin(name):
     return None
+
+# ------------------------------------------------------------------------------------ printf / number parsing (libc models)
+# libc is outside the verified code: these are reference models of exactly the conversions libnstd uses
+# (%d %i %u %lld %llu %ld %lu %zu %x %X %c %s %f %%, optional width/zero-pad/precision for integers).
+
+def _decimal_digits(ex, st, mag, w):
+    """decimal text of the unsigned magnitude (python int or z3 BV of width w): list of byte values, most significant first.
+    Symbolic magnitudes: the path is split by digit count; digits are fresh symbols tied to mag by sum(d_i*10^i) == mag."""
+    if isinstance(mag, int):
+        return [ord(c) for c in str(mag)]
+    maxd = len(str((1 << w) - 1))
+    nd = 1
+    while nd < maxd:
+        if ex.concretize_bool(st, z3.ULT(mag, z3.BitVecVal(10 ** nd, w))): break
+        nd += 1
+    ds = []
+    W = 72
+    total = z3.BitVecVal(0, W)
+    k = st.ghost.get('digit_ctr', 0)
+    for i in range(nd):
+        d = z3.BitVec('digit!%d' % (k + i), 8)
+        ds.append(d)
+    st.ghost['digit_ctr'] = k + nd
+    cons = []
+    for i, d in enumerate(ds):      # ds[0] most significant
+        cons.append(z3.ULE(d, z3.BitVecVal(9, 8)))
+        total = total + z3.ZeroExt(W - 8, d) * z3.BitVecVal(10 ** (nd - 1 - i), W)
+    # same width and normal form as the accumulator of _parse_int: the round trip is then an equality chain for the solver
+    cons.append(z3.simplify(total) == z3.ZeroExt(W - w, mag))
+    c = z3.And(cons)
+    st.pc.append(c); st.model = None
+    # remember the defining equality  sum(d_i*10^i) == mag  so that _parse_int can rewrite the sum back to mag
+    sums = dict(st.ghost.get('digit_sums', {})); sums[tuple(d.decl().name() for d in ds)] = (mag, w); st.ghost['digit_sums'] = sums
+    return [d + z3.BitVecVal(48, 8) for d in ds]
+
+def _format(ex, st, fmt, args):
+    """-> list of byte values (ints / z3 8-bit)"""
+    out = []; i = 0; ai = 0
+    def nextarg():
+        nonlocal ai
+        if ai >= len(args): raise MemError('printf-args', 'printf format consumes more arguments than were passed')
+        v = args[ai]; ai += 1; return v
+    while i < len(fmt):
+        ch = fmt[i]
+        if ch != 0x25:
+            out.append(ch); i += 1; continue
+        i += 1
+        flags = ''
+        while i < len(fmt) and chr(fmt[i]) in '-+ 0#': flags += chr(fmt[i]); i += 1
+        width = 0
+        while i < len(fmt) and 48 <= fmt[i] <= 57: width = width * 10 + fmt[i] - 48; i += 1
+        prec = None
+        if i < len(fmt) and fmt[i] == 0x2e:
+            i += 1; prec = 0
+            while i < len(fmt) and 48 <= fmt[i] <= 57: prec = prec * 10 + fmt[i] - 48; i += 1
+        length = ''
+        while i < len(fmt) and chr(fmt[i]) in 'hlzjt': length += chr(fmt[i]); i += 1
+        if i >= len(fmt): break
+        conv = chr(fmt[i]); i += 1
+        if conv == '%': out.append(0x25); continue
+        w = 64 if length in ('l', 'll', 'z', 'j', 't') else 32
+        if conv in 'di':
+            v = nextarg()
+            v = v & ops.mask(w) if isinstance(v, int) else (z3.Extract(w - 1, 0, v) if v.size() > w else v)
+            if isinstance(v, int):
+                body = [ord(c) for c in str(ops.sgn(v, w))]
+            else:
+                neg = ex.concretize_bool(st, v < 0)
+                mag = (z3.BitVecVal(0, w) - v) if neg else v
+                body = ([0x2d] if neg else []) + _decimal_digits(ex, st, z3.simplify(mag), w)
+            if '+' in flags and body[0] != 0x2d: body = [0x2b] + body
+        elif conv == 'u':
+            v = nextarg()
+            v = v & ops.mask(w) if isinstance(v, int) else (z3.Extract(w - 1, 0, v) if v.size() > w else v)
+            body = _decimal_digits(ex, st, v, w)
+        elif conv in 'xX':
+            v = nextarg()
+            if not isinstance(v, int): v = ex.concretize(st, v, v.size(), 'printf %x')
+            v &= ops.mask(w)
+            body = [ord(c) for c in (('%x' if conv == 'x' else '%X') % v)]
+        elif conv == 'c':
+            v = nextarg()
+            body = [v & 0xff if isinstance(v, int) else z3.Extract(7, 0, v)]
+        elif conv == 's':
+            p = nextarg()
+            if not isinstance(p, int): p = ex.concretize(st, p, 64, 'printf %s')
+            body = []; k = 0
+            while prec is None or k < prec:
+                b = st.mem.load(p + k, 1)
+                if _is_zero(ex, st, b): break
+                body.append(b); k += 1
+        elif conv in 'fgeG':
+            v = nextarg()
+            if not isinstance(v, float): raise _Unsupported('printf of symbolic double')
+            body = [ord(c) for c in (('%' + ('.%d' % prec if prec is not None else '') + conv) % v)]
+        elif conv == 'p':
+            v = nextarg()
+            body = [ord(c) for c in ('0x%x' % (v if isinstance(v, int) else 0))]
+        else:
+            raise _Unsupported('printf conversion %' + conv)
+        if conv in 'diuxX' and prec is not None and len(body) < prec:
+            body = [48] * (prec - len(body)) + body
+        if len(body) < width:
+            pad = width - len(body)
+            if '-' in flags: body = body + [32] * pad
+            elif '0' in flags and conv in 'diuxX':
+                if body and body[0] == 0x2d: body = [0x2d] + [48] * pad + body[1:]
+                else: body = [48] * pad + body
+            else: body = [32] * pad + body
+        out += body
+    return out
+
+def _fmt_bytes(ex, st, p):
+    return list(st.mem.read_cstr(p))
+
+def _valist(ex, st, ap):
+    if not isinstance(ap, int): ap = ex.concretize(st, ap, 64, 'va_list')
+    vl = st.ghost.get('valists', {}).get(ap)
+    if vl is None: raise _Unsupported('va_list not initialised by va_start')
+    return vl
+
+def _emit(ex, st, buf, size, data):
+    """snprintf semantics: write at most size-1 bytes + NUL; return full length"""
+    if size > 0:
+        n = min(len(data), size - 1)
+        for k in range(n): st.mem.store(buf + k, 1, data[k])
+        st.mem.store(buf + n, 1, 0)
+    return len(data) & ops.mask(32)
+
+@builtin('vsnprintf')
+def b_vsnprintf(ex, st, args, ins):
+    buf, size, fmt, ap = args
+    size = _len(ex, st, size, 'snprintf size')
+    data = _format(ex, st, _fmt_bytes(ex, st, fmt), _valist(ex, st, ap))
+    if not isinstance(buf, int): buf = ex.concretize(st, buf, 64, 'snprintf buf')
+    return _emit(ex, st, buf, size, data)
+
+@builtin('snprintf')
+def b_snprintf(ex, st, args, ins):
+    buf, size, fmt = args[:3]
+    size = _len(ex, st, size, 'snprintf size')
+    data = _format(ex, st, _fmt_bytes(ex, st, fmt), args[3:])
+    return _emit(ex, st, buf, size, data)
+
+@builtin('sprintf')
+def b_sprintf(ex, st, args, ins):
+    buf, fmt = args[:2]
+    data = _format(ex, st, _fmt_bytes(ex, st, fmt), args[2:])
+    for k, b in enumerate(data): st.mem.store(buf + k, 1, b)
+    st.mem.store(buf + len(data), 1, 0)
+    return len(data)
+
+@builtin('vprintf', 'printf', 'puts', 'fputs', 'fflush', 'putchar', 'fwrite', 'vfprintf', 'fprintf')
+def b_ignore_output(ex, st, args, ins):
+    return 0
+
+def _skip_space(ex, st, p):
+    while True:
+        b = st.mem.load(p, 1)
+        if isinstance(b, int):
+            if b in (9, 10, 11, 12, 13, 32): p += 1; continue
+            return p
+        sp = z3.Or(b == 32, z3.And(z3.UGE(b, 9), z3.ULE(b, 13)))
+        if ex.concretize_bool(st, sp): p += 1; continue
+        return p
+
+def _parse_int(ex, st, p, w, signed, base=10):
+    """strtol-style: returns (value, endptr). symbolic digits accumulate symbolically; each char forks on its class only"""
+    p = _skip_space(ex, st, p)
+    neg = False
+    b = st.mem.load(p, 1)
+    if isinstance(b, int):
+        if b == 0x2d: neg = True; p += 1
+        elif b == 0x2b: p += 1
+    else:
+        if ex.concretize_bool(st, b == 0x2d): neg = True; p += 1
+        elif ex.concretize_bool(st, b == 0x2b): p += 1
+    val = 0; nd = 0
+    W = 72
+    ov = False
+    names = []
+    while True:
+        b = st.mem.load(p, 1)
+        if isinstance(b, int):
+            if base == 10 and 48 <= b <= 57: d = b - 48
+            elif base == 16 and (48 <= b <= 57 or 65 <= b <= 70 or 97 <= b <= 102): d = int(chr(b), 16)
+            else: break
+        else:
+            if base != 10: b = ex.concretize(st, b, 8, 'hex digit'); continue
+            isd = z3.And(z3.UGE(b, 48), z3.ULE(b, 57))
+            if not ex.concretize_bool(st, isd): break
+            d8 = z3.simplify(b - 48)
+            names.append(d8.decl().name() if z3.is_const(d8) else None)
+            d = z3.ZeroExt(W - 8, d8)
+        if isinstance(val, int) and isinstance(d, int): val = val * base + d
+        else: val = to_bv(val, W) * base + to_bv(d, W)
+        nd += 1; p += 1
+        if nd > 24: break
+    # range handling (strto* saturate; ato* are undefined on overflow -> we saturate too and say so)
+    lim_pos = (1 << (w - 1)) - 1 if signed else (1 << w) - 1
+    lim_neg = (1 << (w - 1)) if signed else (1 << w) - 1
+    if isinstance(val, int):
+        if neg:
+            r = (-min(val, lim_neg)) & ops.mask(w) if signed else ((-val) & ops.mask(w) if val <= lim_neg else ops.mask(w))
+        else:
+            r = min(val, lim_pos)
+        return r & ops.mask(w), p
+    lim = lim_neg if neg else lim_pos
+    known = st.ghost.get('digit_sums', {}).get(tuple(names)) if len(names) == nd and nd else None
+    if known is not None:
+        val = z3.ZeroExt(W - known[1], known[0])      # rewrite with the recorded equality (exact, it is in the path condition)
+    else:
+        val = z3.simplify(val)
+    over = ex.concretize_bool(st, z3.UGT(val, z3.BitVecVal(lim, W)))
+    if over:
+        r = lim if not neg else ((-lim) & ops.mask(w) if signed else ops.mask(w))
+        return r & ops.mask(w), p
+    r = z3.Extract(w - 1, 0, val)
+    if neg: r = z3.BitVecVal(0, w) - r
+    return z3.simplify(r), p
+
+@builtin('atoi')
+def b_atoi(ex, st, args, ins): return _parse_int(ex, st, _ptr(ex, st, args[0]), 32, True)[0]
+@builtin('atol', 'atoll')
+def b_atoll(ex, st, args, ins): return _parse_int(ex, st, _ptr(ex, st, args[0]), 64, True)[0]
+def _strto(w, signed):
+    def f(ex, st, args, ins):
+        base = args[2] if isinstance(args[2], int) else ex.concretize(st, args[2], 32, 'base')
+        if base not in (10, 16): raise _Unsupported('strto* base %d' % base)
+        v, end = _parse_int(ex, st, _ptr(ex, st, args[0]), w, signed, base)
+        if isinstance(args[1], int) and args[1]: st.mem.store(args[1], 8, end)
+        return v
+    return f
+TABLE['strtol'] = _strto(64, True); TABLE['strtoll'] = _strto(64, True)
+TABLE['strtoul'] = _strto(64, False); TABLE['strtoull'] = _strto(64, False)
+
+@builtin('atof', 'strtod')
+def b_atof(ex, st, args, ins):
+    p = _ptr(ex, st, args[0])
+    s = bytearray()
+    k = 0
+    while True:
+        b = st.mem.load(p + k, 1)
+        if not isinstance(b, int): b = ex.concretize(st, b, 8, 'atof char')
+        if b == 0 or k > 64: break
+        s.append(b); k += 1
+    import re as _re
+    m = _re.match(rb'\s*[-+]?(\d+\.?\d*([eE][-+]?\d+)?|\.\d+([eE][-+]?\d+)?|inf|nan)', bytes(s), _re.I)
+    v = float(m.group(0)) if m else 0.0
+    if len(args) > 1 and isinstance(args[1], int) and args[1]:
+        st.mem.store(args[1], 8, p + (m.end() if m else 0))
+    return v
